@@ -20,6 +20,7 @@ type Flavor interface {
 // Profile: generator weights (percent).
 type Profile struct {
 	Validate, Stop, Logs int
+	Deps                 int // number of lazy-app-loading (dependency graph) cases in the quick tier
 }
 
 type Prop struct {
@@ -43,6 +44,10 @@ func (p *Prop) Run(line string) core.Outcome {
 	if o, ok := p.cache[line]; ok {
 		// Generate ran this very case a moment ago to learn the map orders Go chose
 		delete(p.cache, line)
+		return o
+	}
+	if strings.HasPrefix(line, "G=") {
+		o, _, _ := p.runDepsLine(line, true)
 		return o
 	}
 	ops, ok := ParseCase(line)
@@ -94,6 +99,16 @@ func (p *Prop) Generate(rng *core.Rand, tier string, emit func(string)) {
 	}
 	for c := 0; c < n; c++ {
 		run(g.history(maxLen))
+	}
+	if p.F.Profile().Deps > 0 {
+		nd := p.F.Profile().Deps
+		if tier == "thorough" {
+			nd *= 10
+		}
+		p.genDeps(rng.Fork(), nd, emit)
+		for _, l := range []string{"G=0,0,0=0=0", "G=0,1,3;1,0,0=0.1=-", "G=0,1.2,0;2,3,5=0.2=0.1.2.3", "G=-=-=-", "G=0,4,0=-=-", "G=0,-,1=-=-", "G=1,-,0;0,-,0=-=-", "G=0,-,0 S"} {
+			emit(l)
+		}
 	}
 	for _, l := range malformed {
 		emit(l)
